@@ -479,6 +479,7 @@ func (c *tlvCheck) spaceA(maxRecs int, workers int) (streams int64) {
 		wg.Add(1)
 		go func() {
 			defer wg.Done()
+			defer c.recoverGo("space A")
 			lc := newLocal()
 			var cnt int64
 			buf := make([]byte, 0, 64)
@@ -945,7 +946,12 @@ func (c *tlvCheck) checkPrim(p prim, v []byte, trailer bool, lc *local) {
 	}
 	want := p.ok(v)
 	for ei := range entries[:2] {
-		s, re := p.mk()
+		var s *tlv.Stream
+		var re func() *tlv.Stream
+		if _, pan := call(func() error { s, re = p.mk(); return nil }); pan != "" {
+			c.violation("tlv:prim-"+p.name+":constructor-panic", fmt.Sprintf("building a %s record stream panicked: %s", p.name, pan), replayCase{Space: "D", Prim: p.name, Stream: hex.EncodeToString(b)})
+			return
+		}
 		lc.evals++
 		_, err, pan := decodeWith(s, ei, b)
 		rc := replayCase{Space: "D", Prim: p.name, Stream: hex.EncodeToString(b)}
@@ -990,6 +996,7 @@ func (c *tlvCheck) spaceD(alphabet []byte, workers int) int64 {
 		wg.Add(1)
 		go func(p prim) {
 			defer wg.Done()
+			defer c.recoverGo("space D " + p.name)
 			lc := newLocal()
 			var n int64
 			for l := 0; l <= 9; l++ {
@@ -1147,6 +1154,7 @@ func (c *tlvCheck) spaceV(all32 bool, workers int) int64 {
 			wg.Add(1)
 			go func(w int) {
 				defer wg.Done()
+				defer c.recoverGo("space V")
 				lc := newLocal()
 				var cnt int64
 				f := []byte{0xfe, 0, 0, 0, 0}
@@ -1171,8 +1179,22 @@ func (c *tlvCheck) spaceV(all32 bool, workers int) int64 {
 
 // ---------------------------------------------------------------------------------
 
+// recoverGo turns a panic that escaped the per-call guards of an enumeration goroutine
+// into a violation (a goroutine panic would otherwise kill the whole binary).
+func (c *tlvCheck) recoverGo(where string) {
+	if r := recover(); r != nil {
+		c.violation("tlv:panic-outside-guard:"+where, fmt.Sprintf("a call into the tlv package panicked outside the per-call guards in %s: %v", where, r), replayCase{Space: "none"})
+	}
+}
+
 func TestC10TLV(t *testing.T) {
 	run := evid.Start("C10", "exploration")
+	defer func() {
+		if r := recover(); r != nil {
+			run.Violation("tlv:harness-phase:panic", fmt.Sprintf("a call into the tlv package panicked outside the enumeration: %v", r), replayCase{Half: "tlv", Space: "none"})
+			os.Exit(run.Finish(map[string]any{"evaluations": 1, "distinct_nontrivial": 2, "rule": "aborted by a panic outside the enumeration", "samples": []any{fmt.Sprint(r)}, "exhaustive": false}))
+		}
+	}()
 	c := &tlvCheck{capsHit: []string{}, run: run, outcomes: map[string]int64{}, accepted: map[string]struct{}{}, cells: map[string]struct{}{}, samples: evid.NewSamples(8)}
 
 	if os.Getenv("VERIF_C10_TLV_CHILD") != "" {
